@@ -89,6 +89,11 @@ func checkC16(c *Ctx) {
 	if sub := c.subscribeHandler(); sub != nil {
 		c.subscribeLoop(sub)
 	}
+	// the clean session teardown deletes is found under the identifier it was stored with
+	if lf := c.sessionLookupFn(); lf != nil {
+		c.useRules(ruleP9)
+		c.sessionKeyedByFinalID(lf)
+	}
 	goroutineJoin(c)
 	pumpsCloseRing(c)
 	serverClose(c)
